@@ -298,6 +298,11 @@ func verifyUnit(ld *Loader, db *ContractDB, specs *SpecLib, u *Unit, prop string
 		return
 	}
 	x.proc = u.Proc
+	if u.CF != nil {
+		for k, v := range u.CF.FileOpts {
+			x.opts[k] = v
+		}
+	}
 	for k, v := range u.Proc.Opts {
 		x.opts[k] = v
 	}
@@ -592,6 +597,9 @@ func (x *Exec) checkPost(u *Unit, e, entry *State, mk func(*State, bool) *CEnv, 
 	}
 	x.applySets(e, env, pc, n)
 	x.applyGSets(e, env, pc, n)
+	if u.Decl != nil && u.Lit == nil && u.Impl == nil {
+		x.checkFrame(e, entry, env, pc, n)
+	}
 	// panics_when is exact: a normal return means none of its conditions held at entry
 	// (call sites rely on that)
 	for i, c := range pc.PanicsWhen {
